@@ -42,6 +42,8 @@ type C14Case struct {
 	Gen      string     `json:"generator,omitempty"`
 	Zoom     float32    `json:"zoom,omitempty"`
 	PageH    int        `json:"page_h,omitempty"`
+	// Wrap: a transform on the element holding all blocks (links of later blocks lie inside two transforms)
+	Wrap string `json:"wrap,omitempty"`
 	// Bleed: declarations added to @page (bleed / marks): the media box grows around the page box
 	Bleed string  `json:"bleed,omitempty"`
 	Doc   gen.Doc `json:"doc,omitempty"`
@@ -104,6 +106,7 @@ func c14Gen(t *rapid.T, tier Tier) interface{} {
 	c.Gen = rapid.SampledFrom([]string{"", "gen 1.0"}).Draw(t, "gen")
 	c.Zoom = rapid.SampledFrom([]float32{1, 1, 0.1, 2.5}).Draw(t, "zoom")
 	c.PageH = rapid.SampledFrom([]int{60, 100, 200, 1000}).Draw(t, "pageh")
+	c.Wrap = rapid.SampledFrom([]string{"", "", "", "transform:scale(0.5)", "transform:rotate(10deg)", "transform:translate(20px,5px)"}).Draw(t, "wrap")
 	c.Bleed = rapid.SampledFrom([]string{"", "", "", "bleed:20px", "marks:crop", "bleed:8px;marks:cross crop"}).Draw(t, "bleed")
 	return c
 }
@@ -126,7 +129,7 @@ func c14HTML(c *C14Case) string {
 	if c.Gen != "" {
 		b.WriteString(`<meta name="generator" content="` + c.Gen + `">`)
 	}
-	fmt.Fprintf(&b, `<style>@page{size:300px %dpx;margin:10px;`+c.Bleed+`}body{font:10px/1.2 Ahem;margin:0}h1,h2,h3,h4,h5,h6,p{margin:2px 0;font-size:10px}</style></head><body>`, c.PageH)
+	fmt.Fprintf(&b, `<style>@page{size:300px %dpx;margin:10px;`+c.Bleed+`}body{font:10px/1.2 Ahem;margin:0}h1,h2,h3,h4,h5,h6,p{margin:2px 0;font-size:10px}</style></head><body><div style="`+c.Wrap+`">`, c.PageH)
 	for bi, bl := range c.Blocks {
 		switch bl.Kind {
 		case "break":
@@ -157,7 +160,7 @@ func c14HTML(c *C14Case) string {
 		}
 		fmt.Fprintf(&b, `</%s>`, tag)
 	}
-	b.WriteString("</body></html>")
+	b.WriteString("</div></body></html>")
 	return b.String()
 }
 
